@@ -17,6 +17,10 @@
 //!        KDE mass-error posterior (feature 5) and `l1..l8` = the f64 `ln_1p` of hyperscore, delta_next,
 //!        delta_best, -poisson, matched_intensity_pct, longest_b, longest_y, peptide_len: data for the model's
 //!        reconstruction of the 20-column feature matrix (everything else of score_psms is modelled).
+//!   ldabig n p F[n*p f64] decoy[n 0/1] perm[n] k t1..tk           ->  W_t1 .. W_tk W'
+//!        W_t = train(F, decoy) run inside an explicit rayon pool of t threads; W' = the rows taken in the
+//!        order `perm`, in the pool of t1 threads (large tables: 1,100 .. 40,000 rows)
+//!   scorepsmst t n (21 fields)*n                               ->  as scorepsms, run inside a rayon pool of t threads
 //! All floats are bit patterns; every NaN is canonicalised to the quiet NaN 0x7ff8000000000000.
 use super::Info;
 use crate::proto::{Case, Out, Rng, Tier, Toks};
@@ -25,7 +29,7 @@ use sage_core::ml::gauss::Gauss;
 use sage_core::ml::linear_discriminant::{score_psms, LinearDiscriminantAnalysis};
 use sage_core::ml::matrix::Matrix;
 
-pub const OPS: &[&str] = &["gauss", "lda", "scorepsms"];
+pub const OPS: &[&str] = &["gauss", "lda", "scorepsms", "ldabig", "scorepsmst"];
 pub const INFO: Info = Info {
     rule: "gauss: n<=6 (quick) / 10 (thorough) systems with A = random SPD (G'G + dI), nearly singular PSD \
            (G'G, rank r<n, float-rounded), exactly singular PSD (small integers), diagonal / zero rows, \
@@ -37,6 +41,8 @@ pub const INFO: Info = Info {
            single-row class, one class empty, duplicated rows, -0.0 entries, \
            large-offset (well-conditioned after centring; one or two columns offset by 1e3 / 1e6 / 1e9 with unit spread, or a column 1 + 1e-6*value; 20..60 rows, shuffled); row order: identity, random permutations, and ALL \
            permutations for n <= 4 (quick) / 6 (thorough); non-trivial = both classes present and p >= 2. \
+           large-table (ops ldabig / scorepsmst): 1,100 / 2,049+1,500 / 5,000 / 40,000 rows x 2..4 features on the grid 2^-8, sorted by a feature / by label / shuffled, class shift 0.02 sd (weak) or ~1 sd, \
+           train run inside explicit rayon pools of 1, 4 (quick) / 1, 2, 4, 16 threads plus a random row permutation; score_psms on 1,100 / 3,549 PSMs sorted by hyperscore in pools of 4 / 16 threads. \
            scorepsms: 1..80 (quick) / 400 PSM feature records with realistic ranges (finite poisson <= 0), large and small sets, \
            constant charge/rank columns, ion mobility present or all zero, two decoys only; a default-on family `nonfinite-feature-guarded` (fittable sets of 40..70 records in which 1..3 records carry poisson in {-inf,+inf,NaN,2.5,1.0} or \
            delta_rt_model / delta_ims_model in {+inf,-inf,negative,>1}: the guards of the feature transform must replace them, fit expected); variants that must fall back: one class empty, \
@@ -254,11 +260,80 @@ fn exec_scorepsms(t: &mut Toks) -> Option<String> {
     Some(o.finish())
 }
 
+fn in_pool<R: Send>(threads: usize, f: impl FnOnce() -> R + Send) -> R {
+    rayon::ThreadPoolBuilder::new()
+        .num_threads(threads.max(1))
+        .build()
+        .expect("rayon pool")
+        .install(f)
+}
+
+fn exec_ldabig(t: &mut Toks) -> Option<String> {
+    let n = t.usize()?;
+    let p = t.usize()?;
+    if n > 200_000 || p > 16 {
+        return None;
+    }
+    let mut f = Vec::with_capacity(n * p);
+    for _ in 0..n * p {
+        f.push(t.f64()?);
+    }
+    let mut decoy = Vec::with_capacity(n);
+    for _ in 0..n {
+        decoy.push(t.bool()?);
+    }
+    let mut perm = Vec::with_capacity(n);
+    for _ in 0..n {
+        let k = t.usize()?;
+        if k >= n {
+            return None;
+        }
+        perm.push(k);
+    }
+    let k = t.usize()?;
+    if k == 0 || k > 8 {
+        return None;
+    }
+    let mut pools = Vec::with_capacity(k);
+    for _ in 0..k {
+        let th = t.usize()?;
+        if th == 0 || th > 64 {
+            return None;
+        }
+        pools.push(th);
+    }
+    if !t.done() {
+        return None;
+    }
+    let mut o = Out::new();
+    for &th in &pools {
+        in_pool(th, || train_dir(&mut o, &f, n, p, &decoy));
+    }
+    let mut f2 = Vec::with_capacity(n * p);
+    let mut d2 = Vec::with_capacity(n);
+    for &r in &perm {
+        f2.extend_from_slice(&f[r * p..(r + 1) * p]);
+        d2.push(decoy[r]);
+    }
+    in_pool(pools[0], || train_dir(&mut o, &f2, n, p, &d2));
+    Some(o.finish())
+}
+
+fn exec_scorepsmst(t: &mut Toks) -> Option<String> {
+    let th = t.usize()?;
+    if th == 0 || th > 64 {
+        return None;
+    }
+    in_pool(th, || exec_scorepsms(t))
+}
+
 pub fn exec(op: &str, t: &mut Toks) -> Option<String> {
     match op {
         "gauss" => exec_gauss(t),
         "lda" => exec_lda(t),
         "scorepsms" => exec_scorepsms(t),
+        "ldabig" => exec_ldabig(t),
+        "scorepsmst" => exec_scorepsmst(t),
         _ => None,
     }
 }
@@ -974,10 +1049,123 @@ fn gen_finding_families(rng: &mut Rng, tier: Tier, emit: &mut dyn FnMut(Case)) {
     }
 }
 
+#[derive(Copy, Clone, PartialEq, Debug)]
+enum BigOrder {
+    ByFeature,
+    ByLabel,
+    Shuffled,
+}
+
+/// a large two-class table with values on the grid 2^-8 (so that the exact rational statistics stay
+/// small): column j = 3 + j + class shift + unit noise; `weak` = class shift of 0.02 sd in total (so that the dominant eigenvalue of S_w^-1 S_b is ~1e-4: far above
+/// the absolute 1e-8 stopping threshold of power_method, but below it if anything divides it by the row count), else ~1 sd
+fn draw_big(rng: &mut Rng, nt: usize, nd: usize, p: usize, weak: bool, order: BigOrder) -> (Vec<f64>, Vec<bool>) {
+    let n = nt + nd;
+    let shift: Vec<f64> = (0..p).map(|j| if weak { 0.02 / (p as f64).sqrt() * (1.0 + 0.1 * j as f64) } else { 0.8 + 0.3 * rng.unit() }).collect();
+    let mut rows: Vec<(Vec<f64>, bool)> = (0..n)
+        .map(|i| {
+            let decoy = i >= nt;
+            let r: Vec<f64> = (0..p)
+                .map(|j| quant(3.0 + j as f64 + if decoy { 0.0 } else { shift[j] } + gauss01(rng), 8))
+                .collect();
+            (r, decoy)
+        })
+        .collect();
+    match order {
+        BigOrder::ByFeature => rows.sort_by(|a, b| a.0[0].total_cmp(&b.0[0])),
+        BigOrder::ByLabel => rows.sort_by(|a, b| a.1.cmp(&b.1).then(a.0[p - 1].total_cmp(&b.0[p - 1]))),
+        BigOrder::Shuffled => rng.shuffle(&mut rows),
+    }
+    let mut f = Vec::with_capacity(n * p);
+    let mut d = Vec::with_capacity(n);
+    for (r, dec) in rows {
+        f.extend_from_slice(&r);
+        d.push(dec);
+    }
+    (f, d)
+}
+
+fn req_ldabig(n: usize, p: usize, f: &[f64], decoy: &[bool], perm: &[usize], pools: &[usize]) -> String {
+    let mut o = Out::new();
+    o.raw("ldabig").n(n).n(p);
+    for &x in f {
+        o.f64(x);
+    }
+    for &d in decoy {
+        o.b(d);
+    }
+    for &k in perm {
+        o.n(k);
+    }
+    o.n(pools.len());
+    for &t in pools {
+        o.n(t);
+    }
+    o.finish()
+}
+
+/// large tables (more than 1024 rows in the table or in one class), run inside explicit rayon pools:
+/// the statistics of `train` must not depend on how a pool would split the rows
+fn gen_big(rng: &mut Rng, tier: Tier, emit: &mut dyn FnMut(Case)) {
+    let quick = tier == Tier::Quick;
+    let pools_q: &[usize] = &[1, 4];
+    let pools_t: &[usize] = &[1, 2, 4, 16];
+    let pools = if quick { pools_q } else { pools_t };
+    let mut one = |rng: &mut Rng, nt: usize, nd: usize, p: usize, weak: bool, order: BigOrder, emit: &mut dyn FnMut(Case)| {
+        let (f, d) = draw_big(rng, nt, nd, p, weak, order);
+        let n = nt + nd;
+        let mut perm: Vec<usize> = (0..n).collect();
+        rng.shuffle(&mut perm);
+        emit(Case::new(req_ldabig(n, p, &f, &d, &perm, pools))
+            .tag("ldabig")
+            .tag("large-table")
+            .tag(if weak { "weak-separation" } else { "strong-separation" })
+            .tag(match order {
+                BigOrder::ByFeature => "sorted-by-feature",
+                BigOrder::ByLabel => "sorted-by-label",
+                BigOrder::Shuffled => "shuffled",
+            })
+            .tag(if n >= 40000 { "rows-40000" } else if n >= 5000 { "rows-5000" } else if n >= 3549 { "rows-2049+1500" } else { "rows-1100" }));
+    };
+    if quick {
+        one(rng, 700, 400, 2, false, BigOrder::ByFeature, emit);
+        one(rng, 2049, 1500, 3, false, BigOrder::ByLabel, emit);
+        one(rng, 2049, 1500, 2, true, BigOrder::ByFeature, emit);
+        one(rng, 3000, 2000, 2, true, BigOrder::Shuffled, emit);
+        one(rng, 25000, 15000, 3, true, BigOrder::ByFeature, emit);
+    } else {
+        for &(nt, nd) in &[(700usize, 400usize), (2049, 1500), (3000, 2000), (25000, 15000)] {
+            for &order in &[BigOrder::ByFeature, BigOrder::ByLabel, BigOrder::Shuffled] {
+                for &weak in &[false, true] {
+                    let reps = if nt + nd >= 40000 { 1 } else { 3 };
+                    for _ in 0..reps {
+                        let p = 2 + rng.below(3);
+                        one(rng, nt, nd, p, weak, order, emit);
+                    }
+                }
+            }
+        }
+    }
+    // score_psms on large PSM tables sorted by hyperscore / by label, inside a pool of 4 (and 16) threads
+    let sizes: &[usize] = if quick { &[1100] } else { &[1100, 3549, 3549] };
+    for (idx, &n) in sizes.iter().enumerate() {
+        let mut ps: Vec<Psm> = (0..n).map(|i| draw_psm(rng, i % 5 < 2, false)).collect();
+        if idx % 2 == 0 {
+            ps.sort_by(|a, b| b.hyperscore.total_cmp(&a.hyperscore));
+        } else {
+            ps.sort_by(|a, b| a.label.cmp(&b.label).then(b.hyperscore.total_cmp(&a.hyperscore)));
+        }
+        let th = if idx == 2 { 16 } else { 4 };
+        let req = req_psms(&ps).replacen("scorepsms ", &format!("scorepsmst {} ", th), 1);
+        emit(Case::new(req).tag("scorepsmst").tag("large-table").tag("sorted-by-feature"));
+    }
+}
+
 pub fn gen(rng: &mut Rng, tier: Tier, emit: &mut dyn FnMut(Case)) {
     let mut r = rng.fork();
     gen_finding_families(&mut r, tier, emit);
     gen_gauss(rng, tier, emit);
     gen_lda(rng, tier, emit);
     gen_psms(rng, tier, emit);
+    gen_big(rng, tier, emit);
 }
